@@ -439,6 +439,12 @@ type c05Case struct {
 	OddLine string `json:"odd_line,omitempty"` // an extra line in the device's iptables-save output
 	FailAt  int    `json:"fail_at,omitempty"`  // device-resume: the session dies when this `ip route` command arrives
 	Cut     string `json:"cut,omitempty"`      // ipt-resume: the session dies at which | chmod | exec | mv | echo-after-…
+	// neg-pairs: the two rule texts (device: iptables-save spelling, target: a user spelling) and what the generator varied
+	RuleA  string `json:"rule_a,omitempty"`
+	RuleB  string `json:"rule_b,omitempty"`
+	Kind   string `json:"kind,omitempty"`
+	DevNeg bool   `json:"dev_neg,omitempty"`
+	TgtNeg bool   `json:"tgt_neg,omitempty"`
 }
 
 func encRS(rs []aTable) string {
@@ -1134,6 +1140,11 @@ func genRoutes(rng *RNG, o routeGenOpts, res *Result) (dev []devRoute, tgt []str
 	if o.nest {
 		pool = nestPool
 	}
+	if o.many {
+		// beyond 12 routes the real sort is not stable; with two hops for one destination the CONTENT of the script then
+		// depends on the order of equal prefix lengths, which the model (stable sort) does not follow: keep the two apart
+		o.multiHop = false
+	}
 	n := rng.Intn(o.max + 1)
 	for i := 0; i < n; i++ {
 		ip, plen := splitDst(Pick(rng, pool))
@@ -1195,6 +1206,140 @@ func genRoutes(rng *RNG, o routeGenOpts, res *Result) (dev []devRoute, tgt []str
 		noise = append(noise, Pick(rng, noisePool))
 	}
 	return
+}
+
+// ---------------------------------------------------------------- neg-pairs: rules that differ only in a negation or only in a spelling
+
+// negValue: one meaning with its iptables-save spelling, user spellings of the SAME meaning, and near values of ANOTHER meaning.
+type negValue struct {
+	kernel string
+	users  []string
+	near   []string // kernel spellings of neighbouring, different values
+}
+
+var negPorts = []negValue{
+	{"80", []string{"80", "080", "0080"}, []string{"81", "8"}},
+	{"1024:2048", []string{"1024:2048", "01024:2048"}, []string{"1024:2049", "1024:65535"}},
+	{"1024:65535", []string{"1024:", "1024:65535", "01024:", "01024:65535"}, []string{"1024:65534", "1025:65535", "1024:6553"}},
+	{"0:1023", []string{":1023", "0:1023", "00:1023"}, []string{"1:1023", "0:1024", "0:65535"}},
+	{"0:65535", []string{":", "0:", ":65535", "0:65535", "00:"}, []string{"1:65535", "0:65534"}},
+	{"65535", []string{"65535"}, []string{"6553", "0:65535"}},
+	{"0", []string{"0", "00"}, []string{"0:65535", "1"}},
+}
+var negAddrs = []negValue{
+	{"10.1.1.1/32", []string{"10.1.1.1", "10.1.1.1/32"}, []string{"10.1.1.11/32", "10.1.1.1/31"}},
+	{"10.1.1.0/24", []string{"10.1.1.0/24"}, []string{"10.1.1.0/25", "10.1.11.0/24"}},
+	{"10.1.1.32/32", []string{"10.1.1.32", "10.1.1.32/32"}, []string{"10.1.1.3/32", "10.1.1.32/30"}},
+}
+var negIfs = []negValue{{"eth0", []string{"eth0"}, []string{"eth1", "eth01"}}, {"bond0.12", []string{"bond0.12"}, []string{"bond0.1"}}}
+var negProtos = []negValue{
+	{"tcp", []string{"tcp", "TCP", "Tcp"}, []string{"udp"}},
+	{"udp", []string{"udp", "UDP"}, []string{"tcp", "udplite"}},
+	{"112", []string{"112", "vrrp", "VRRP"}, []string{"12", "58"}},
+	{"vrrp", []string{"112", "vrrp", "Vrrp"}, []string{"ipv6-icmp"}},
+	{"58", []string{"58", "ipv6-icmp", "IPv6-ICMP"}, []string{"5", "112"}},
+	{"ipv6-icmp", []string{"58", "ipv6-icmp"}, []string{"icmp"}},
+	{"47", []string{"47"}, []string{"4", "7"}},
+}
+var negStates = []negValue{
+	{"NEW,ESTABLISHED", []string{"NEW,ESTABLISHED", "ESTABLISHED,NEW"}, []string{"NEW", "NEW,RELATED,ESTABLISHED"}},
+	{"RELATED,ESTABLISHED", []string{"ESTABLISHED,RELATED", "RELATED,ESTABLISHED"}, []string{"ESTABLISHED", "NEW,ESTABLISHED"}},
+	{"INVALID,NEW,UNTRACKED", []string{"UNTRACKED,NEW,INVALID", "INVALID,NEW,UNTRACKED", "NEW,INVALID,UNTRACKED"}, []string{"INVALID,NEW"}},
+	{"NEW", []string{"NEW"}, []string{"INVALID"}},
+}
+var negMarks = []negValue{
+	{"0x10/0xffffffff", []string{"--set-mark 0x10", "--set-mark 16", "--set-xmark 0x10/0xffffffff", "--set-mark 0x10/0xFFFFFFFF", "--set-mark 0X10"}, []string{"0x1/0xffffffff", "0x100/0xffffffff"}},
+	{"0xa/0xffffffff", []string{"--set-mark 10", "--set-mark 0xa", "--set-mark 0xA", "--set-xmark 0xA/0xFFFFFFFF"}, []string{"0x10/0xffffffff", "0xa0/0xffffffff"}},
+}
+
+// genNegPair: device rule in iptables-save spelling, target rule in a user spelling; they differ in the negation,
+// or in the spelling only, or (sometimes) in a neighbouring value.
+func genNegPair(rng *RNG) *c05Case {
+	c := &c05Case{Stream: "neg-pairs"}
+	neg := func(b bool) string {
+		if b {
+			return "! "
+		}
+		return ""
+	}
+	// user placement of the negation: before the key or behind it
+	place := func(b bool, key, val string) string {
+		switch {
+		case !b:
+			return key + " " + val
+		case rng.Chance(50):
+			return "! " + key + " " + val
+		}
+		return key + " ! " + val
+	}
+	c.DevNeg, c.TgtNeg = rng.Chance(50), rng.Chance(50)
+	if rng.Chance(35) {
+		c.TgtNeg = c.DevNeg // only the spelling differs
+	}
+	pickVal := func(l []negValue) (string, string) {
+		v := Pick(rng, l)
+		k := v.kernel
+		if rng.Chance(15) {
+			k = Pick(rng, v.near)
+		}
+		return k, Pick(rng, v.users)
+	}
+	jump := Pick(rng, []string{"ACCEPT", "DROP", "c1"})
+	switch kind := rng.Intn(100); {
+	case kind < 45:
+		c.Kind = "port"
+		key := Pick(rng, []string{"--sport", "--dport"})
+		pr := Pick(rng, []string{"tcp", "udp"})
+		kv, uv := pickVal(negPorts)
+		c.RuleA = "-p " + pr + " -m " + pr + " " + neg(c.DevNeg) + key + " " + kv + " -j " + jump
+		up := pr
+		if rng.Chance(30) {
+			up = strings.ToUpper(pr)
+		}
+		c.RuleB = "-p " + up + " " + place(c.TgtNeg, key, uv) + " -j " + jump
+		if rng.Chance(25) { // both port options, the other one plain
+			other := map[string]string{"--sport": "--dport", "--dport": "--sport"}[key]
+			c.RuleA = "-p " + pr + " -m " + pr + " --" + other[2:] + " 53 " + neg(c.DevNeg) + key + " " + kv + " -j " + jump
+			c.RuleB = "-p " + up + " " + other + " 53 " + place(c.TgtNeg, key, uv) + " -j " + jump
+			if other == "--dport" { // iptables-save prints --sport before --dport
+				c.RuleA = "-p " + pr + " -m " + pr + " " + neg(c.DevNeg) + key + " " + kv + " --dport 53 -j " + jump
+			}
+		}
+	case kind < 60:
+		c.Kind = "address"
+		key := Pick(rng, []string{"-s", "-d"})
+		kv, uv := pickVal(negAddrs)
+		c.RuleA = neg(c.DevNeg) + key + " " + kv + " -j " + jump
+		c.RuleB = place(c.TgtNeg, key, uv) + " -j " + jump
+	case kind < 68:
+		c.Kind = "interface"
+		kv, uv := pickVal(negIfs)
+		c.RuleA = neg(c.DevNeg) + "-i " + kv + " -j " + jump
+		c.RuleB = place(c.TgtNeg, "-i", uv) + " -j " + jump
+	case kind < 82:
+		c.Kind = "proto"
+		kv, uv := pickVal(negProtos)
+		c.RuleA = neg(c.DevNeg) + "-p " + kv + " -j " + jump
+		c.RuleB = place(c.TgtNeg, "-p", uv) + " -j " + jump
+	case kind < 93:
+		c.Kind = "state"
+		kv, uv := pickVal(negStates)
+		c.RuleA = "-m state " + neg(c.DevNeg) + "--state " + kv + " -j " + jump
+		c.RuleB = "-m state " + place(c.TgtNeg, "--state", uv) + " -j " + jump
+	default:
+		c.Kind = "mark"
+		c.DevNeg, c.TgtNeg = false, false
+		kv, uv := pickVal(negMarks)
+		c.RuleA = "-j MARK --set-xmark " + kv
+		c.RuleB = "-j MARK " + uv
+	}
+	extra := ""
+	if rng.Chance(30) {
+		extra = "-A INPUT -s 10.9.9.9/32 -j ACCEPT\n"
+	}
+	c.Dev = "# Generated by iptables-save v1.8.7\n*filter\n:INPUT DROP [0:0]\n:c1 - [0:0]\n" + extra + "-A INPUT " + c.RuleA + "\nCOMMIT\n"
+	c.Spoc = "*filter\n:INPUT DROP\n:c1 -\n" + extra + "-A INPUT " + c.RuleB + "\nCOMMIT\n"
+	return c
 }
 
 // ---------------------------------------------------------------- the repository's own test data as corpus
@@ -1444,6 +1589,48 @@ func runC05(ctx *Ctx) *Result {
 		})
 	}
 
+	// neg-pairs: the specification reads the MEANING of both rule texts (driver op `sem`); the real compare must
+	// report a change iff the meanings differ
+	runNegPair := func(c *c05Case) {
+		res.Count("stream:neg-pairs")
+		impl := run.drc(c.Dev, c.Spoc)
+		ans := drv.Ask("cmp" + fs + toLine(c.Dev) + fs + toLine(c.Spoc))
+		res.TracesVsImpl++
+		res.Eval("negpair\x00"+c.Dev+"\x00"+c.Spoc, true)
+		d := agree(impl, ans, false)
+		if d != "" {
+			res.Disagree("c05 drc vs model: "+d, c, fmt.Sprintf("status=%d stdout=%q stderr=%q panic=%q", impl.Status, impl.Stdout, impl.Stderr, impl.Panic), ans)
+		}
+		sem := drv.Ask("sem" + fs + c.RuleA + fs + c.RuleB)
+		if impl.Status != 0 || impl.Panic != "" || (sem != "eq" && sem != "ne") {
+			res.Disagree("c05 neg-pairs: a generated pair is not read (specification: "+sem+")", c, impl.Stderr+impl.Panic, "")
+			return
+		}
+		changed := impl.Stdout != ""
+		res.Count(fmt.Sprintf("neg-pairs:%s,meaning=%s,changed=%v", c.Kind, sem, changed))
+		if c.DevNeg != c.TgtNeg {
+			res.Count("neg-pairs:only the negation differs," + c.Kind)
+		}
+		first, _, _ := strings.Cut(impl.Stdout, "\n")
+		switch {
+		case sem == "ne" && !changed:
+			res.Fail(map[string]any{"pred": "rule_change_missed", "kind": c.Kind, "dev_negated": c.DevNeg, "tgt_negated": c.TgtNeg},
+				"device rule `"+c.RuleA+"` and target rule `"+c.RuleB+"` do not mean the same, yet no change is reported", c)
+		case sem == "eq" && changed:
+			// would the same two spellings compare equal without the negation? (then the normaliser does not look behind the `!`)
+			plainEq := false
+			if c.DevNeg && c.TgtNeg {
+				strip := func(x string) string { return strings.Replace(strings.Replace(x, " ! ", " ", 1), "-A INPUT ! ", "-A INPUT ", 1) }
+				p := run.drc(strip(c.Dev), strip(c.Spoc))
+				pm := drv.Ask("cmp" + fs + toLine(strip(c.Dev)) + fs + toLine(strip(c.Spoc)))
+				plainEq = p.Status == 0 && p.Stdout == "" && agree(p, pm, false) == "" &&
+					drv.Ask("sem"+fs+strings.Replace(c.RuleA, "! ", "", 1)+fs+strings.Replace(c.RuleB, "! ", "", 1)) == "eq"
+			}
+			res.Fail(map[string]any{"pred": "equivalent_spelling_reported_as_change", "kind": c.Kind, "negated": c.DevNeg && c.TgtNeg,
+				"model_predicts": d == "", "same_pair_without_negation_is_equal": plainEq},
+				"device rule `"+c.RuleA+"` and target rule `"+c.RuleB+"` mean the same, yet a change is reported: "+first, c)
+		}
+	}
 	// ---- the device path: the real LoadDevice / GetChanges / ApplyCommands against a simulated host
 	flatten := func(lines []string) []string {
 		var out []string
@@ -1921,6 +2108,8 @@ func runC05(ctx *Ctx) *Result {
 			runDeviceResume(&c)
 		case "ipt-resume":
 			runIptResume(&c)
+		case "neg-pairs":
+			runNegPair(&c)
 		default:
 			runCase(&c)
 		}
@@ -2325,6 +2514,11 @@ func runC05(ctx *Ctx) *Result {
 			}
 		}
 		res.Notes = append(res.Notes, "exhaustive: 16 device route sets x 41 target sequences over 4 keys; every hint combination of single-rule spellings per option kind, both protocol printing styles")
+	}
+	// rules that differ only in a negation, or only in a spelling that keeps the meaning (default bounds of port ranges,
+	// leading zeros, /32, protocol name/number, order of states, default mark mask)
+	for i := 0; i < ctx.N(400, 12000); i++ {
+		runNegPair(genNegPair(base.Fork()))
 	}
 	tDev := time.Now()
 	for i := 0; i < ctx.N(25, 350); i++ {
